@@ -224,3 +224,51 @@ Section BiomassMixed.
     biomass_out (ep_data ep) BIOMASA = Err WrongInput -> fraccion_renovable_acs_nrb ep = Err WrongInput.
   Proof. intros N F O. rewrite dhw_biomass_mixed. fold m0. rewrite N, F, O. reflexivity. Qed.
 End BiomassMixed.
+
+(** ** both kinds of biomass: whatever the other carriers are, the output energy declared by the systems of each kind
+    counts, each weighted with the renewable fraction of its own kind *)
+Section BiomassBoth.
+  Variable ep : EP.
+  Variables (v : list Qc).
+  Let D := qsum v.
+  Let m0 := dhw_used_by_cr ep.
+  Hypothesis Hneeds : nd_ACS (ep_needs ep) = Some v.
+  Hypothesis Hd : ~ qabs D < f32_epsilon.
+  Hypothesis Hm : m0 <> [].
+  Hypothesis Hel : aget m0 ELECTRICIDAD = None.
+  Hypothesis Hea : match aget m0 EAMBIENTE with Some A => qfrac 1 100 <= A | None => True end.
+  Hypothesis Hb : ahas m0 BIOMASA = true.
+  Hypothesis Hbd : ahas m0 BIOMASADENSIFICADA = true.
+  Hypothesis Hlow : qsum (map vals_sum (filter (fun e => is_used e && has_carrier EAMBIENTE e && contains (e_cmt e) TAG_EXCLUYE_SCOP) (ep_data ep))) = 0.
+  Hypothesis Hpv : t_used_src_srv_opt ep EL_INSITU ACS = 0.
+
+  Theorem dhw_biomass_both :
+    fraccion_renovable_acs_nrb ep
+    = (do nb <- q_nrb_non_biomass (ep_factors ep) m0;
+       do fb <- ren_fraction (ep_factors ep) BIOMASA; do ob <- biomass_out (ep_data ep) BIOMASA;
+       do fd <- ren_fraction (ep_factors ep) BIOMASADENSIFICADA; do od <- biomass_out (ep_data ep) BIOMASADENSIFICADA;
+       Ok ((snd nb + (ob * fb + od * fd)) / D)).
+  Proof.
+    unfold fraccion_renovable_acs_nrb, needs_sum. rewrite Hneeds. fold D.
+    destruct (qltb_spec (qabs D) f32_epsilon) as [L|L]; [contradiction|].
+    cbv zeta. fold m0. rewrite Hlow.
+    rewrite (amodify_absent m0 ELECTRICIDAD _ Hel), Hel, amodify_sub0.
+    destruct m0 as [|p0 m'] eqn:EM; [contradiction|]. rewrite <- EM in *.
+    assert (M4 : match aget m0 EAMBIENTE with
+                 | Some v0 => if qltb (qabs v0) (qfrac 1 100) then aremove m0 EAMBIENTE else m0 | None => m0 end = m0).
+    { destruct (aget m0 EAMBIENTE) as [A|]; [|reflexivity]. destruct (qltb_spec (qabs A) (qfrac 1 100)) as [K|K]; [exfalso; revert K; qlra|reflexivity]. }
+    rewrite M4, Hb, Hbd.
+    destruct (q_nrb_non_biomass (ep_factors ep) m0) as [nb|k] eqn:N; cbn [bind orb andb negb]; [|reflexivity].
+    destruct (ren_fraction (ep_factors ep) BIOMASA) as [fb|k]; cbn [bind]; [|reflexivity].
+    destruct (biomass_out (ep_data ep) BIOMASA) as [ob|k]; cbn [bind]; [|reflexivity].
+    destruct (ren_fraction (ep_factors ep) BIOMASADENSIFICADA) as [fd|k]; cbn [bind]; [|reflexivity].
+    destruct (biomass_out (ep_data ep) BIOMASADENSIFICADA) as [od|k]; cbn [bind]; [|reflexivity].
+    rewrite Hpv, Hel. destruct (qltb_spec 0 0) as [Z|Z]; [exfalso; qlra|]. cbn [andb bind]. f_equal. unfold Qcdiv. ring.
+  Qed.
+
+  (** without declared output energy for one of the kinds there is an error instead of a number *)
+  Corollary dhw_biomass_both_without_output nb fb :
+    q_nrb_non_biomass (ep_factors ep) m0 = Ok nb -> ren_fraction (ep_factors ep) BIOMASA = Ok fb ->
+    biomass_out (ep_data ep) BIOMASA = Err WrongInput -> fraccion_renovable_acs_nrb ep = Err WrongInput.
+  Proof. intros N F O. rewrite dhw_biomass_both. fold m0. rewrite N, F, O. reflexivity. Qed.
+End BiomassBoth.
